@@ -678,6 +678,8 @@ def r12(led, rid, ctx):
 
 def run(ctx, led):
     from . import C08 as _C08, C17 as _C17
+    from . import C01 as _C01
+    run_rule(led, "R15", "no post / implied_by returns Ok(()) without posting (shared with C01-S18)", _C01.s18, ctx)
     run_rule(led, "R13", "a wrapped incremental propagator that is notified but not run under r = false never discards pending updates silently (shared with C08-H5)", _C08.h5, ctx)
     run_rule(led, "R14", "INCREMENTAL-RESET of un-trailed accumulators on backtrack (shared with C17-L20)", _C17.l20, ctx)
     run_rule(led, "R12", "MUST-PASS: propagate consumes the cached inconsistency on every path, under no further condition", r12, ctx)
